@@ -171,6 +171,7 @@ Section Closing.
         apply pres_bind; [apply pres_emit; discriminate|intros ?]. apply kpres_srv_send.
     - eapply tri_conseq with (Pre' := KOff) (Q' := fun _ => KOff) (R' := KOff); [|tauto|auto|auto].
       apply pres_bind; [apply pres_modify; intros p; apply libinv_KOff; reflexivity|intros ?].
+      apply pres_bind; [apply pres_modify; intros p; apply libinv_KOff; reflexivity|intros ?].
       apply pres_bind; [apply pres_emit; discriminate|intros ?]. apply kpres_srv_send.
   Qed.
 
@@ -244,7 +245,7 @@ Section Closing.
   Lemma handle_one_koff : ktri KOff (handle_one cfg stream_headers ws_token ws_ext ws_sends) (fun _ => KOff) KOff.
   Proof.
     unfold handle_one. apply tri_bind_get. intro p0.
-    destruct (last_response_in_progress p0); [apply tri_ret; tauto|].
+    destruct (p_closed p0 || last_response_in_progress p0); [apply tri_ret; tauto|].
     eapply tri_bind with (Mid := fun _ => KOff).
     { eapply tri_conseq with (Pre' := KOff) (Q' := fun _ => KOff) (R' := KOff); [|tauto|auto|auto].
       destruct (_ && _); [apply kpres_send_h11_event|apply pres_ret]. }
@@ -312,7 +313,7 @@ Section Closing.
   Proof.
     intro Hp. destruct i as [evs| |m evs|].
     - apply pres_kstep_ok; [|exact Hp]. cbn [proto_step].
-      apply pres_bind; [apply pres_get|intro p0]. destruct (last_response_in_progress p0); [apply pres_ret|].
+      apply pres_bind; [apply pres_get|intro p0]. destruct (p_closed p0 || last_response_in_progress p0); [apply pres_ret|].
       apply pres_bind; [apply pres_emit; discriminate|intros ?].
       apply pres_bind; [apply pres_modify; intros q; apply libinv_KOff; reflexivity|intros ?].
       apply handle_events_koff.
